@@ -103,6 +103,43 @@ def main(tier):
             if base["status"] == "COMPLETE" and base["value"] == want: stats["prepare+step equals MiniJS.tla"] += 1
             elif not excused_core and base["status"] != "TIMEOUT":
                 stats["prepare+step differs from MiniJS.tla (C01's business)"] += 1
+        # ---- completion family: the same programs with a final statement that is NOT a plain expression statement
+        # (the completion value then comes from a loop / block / declaration ...): only agreement between the drivers is judged
+        TRAILERS = ["let zz = 4;", "var q9;", ";", "while (false) { 1; }", "let ii = 0; while (ii < 3) { ii++; }", "for (let k = 0; k < 3; k++) { k; }", "{ 7; }", "{ }", "if (true) { 8; }",
+                    "if (false) { 8; } else { }", "class AA { }", "function ff() { return 1; }", "LL: { 9; break LL; }", "switch (1) { case 1: 10; }", "try { 11; } finally { 12; }",
+                    "try { throw 1; } catch (e) { 13; }", "do { 14; } while (false);", "for (const x of [1, 2]) { x; }", "3; let y = 4;", "5; ;", "void 0;"]
+        sub = [P for P in progs if expected_value(exp[P["id"]]) is not None and not (set(exp[P["id"]].get("feat", [])) & set(c01))][: (60 if quick else 600)]
+        cjobs = []
+        for i, P in enumerate(sub):
+            src = source(P, asyncmode) + TRAILERS[i % len(TRAILERS)] + "\n"
+            cjobs.append({"id": i, "source": src, "dep_source": "", "resp": P.get("resp", [])})
+        if not asyncmode:      # the same family as SCRIPTS (no module path, no export): eval() and prepare() take other branches there
+            nmod = len(cjobs)
+            for i, P in enumerate(sub):
+                src = source(P, asyncmode).replace("export const result", "const result") + TRAILERS[(i + 7) % len(TRAILERS)] + "\n"
+                cjobs.append({"id": nmod + i, "source": src, "dep_source": "", "resp": [], "script": True})
+        cgot = M.run_jobs(exe, "entry", cjobs, timeout=1800) if cjobs else {}
+        for i in range(len(cjobs)):
+            runs = cgot.get(i, {}).get("runs", {})
+            if "step" not in runs: continue
+            base = runs["step"]
+            for name, o in runs.items():
+                if name.startswith("role_") or name == "step": continue
+                stats["completion-family driver runs"] += 1
+                def nv(v):      # the C API driver cannot look into objects: every object is <obj>; undefined is <U> on both sides
+                    if v in ("<undefined>", "<U>"): return "<U>"
+                    if v.startswith("<") and not v.startswith(("<n:", "<b:", "<nan", "<N>", "<null>", "<s:")): return "<obj>"
+                    return v
+                obs = (o["status"], nv(o["value"]), tuple(o["orders"])); bobs = (base["status"], nv(base["value"]), tuple(base["orders"]))
+                if obs == bobs: stats["completion-family runs agreeing"] += 1; continue
+                has_orders = bool(base.get("orders"))
+                feat = {"kind": "entry", "driver": name, "orders": has_orders, "base_status": base["status"], "status": o["status"], "family": "completion"}
+                hit = None
+                for f in findings:
+                    if vlib.key_matches(f["key"], feat): hit = f; break
+                if hit: c.known_hit.setdefault(hit["id"], {"finding": hit, "count": 0})["count"] += 1; continue
+                c.report(feat, {"source": cjobs[i]["source"], "prepare_step": base, name: o},
+                         "entry points disagree on the completion value of a %s ending in `%s`: prepare+step -> %s, %s -> %s" % ("script" if cjobs[i].get("script") else "module", cjobs[i]["source"].rstrip().split("\n")[-1], json.dumps(bobs)[:200], name, json.dumps(obs)[:200]))
         log("%s programs: %s" % ("async" if asyncmode else "sync", dict(stats)))
         c.sample({"source": jobs[0]["source"][-500:], "runs": {k: (v["status"], v["value"][:60]) for k, v in got[progs[0]["id"]].get("runs", {}).items()}})
     c.cov["traces_validated_against_impl"] = stats["driver runs agreeing with prepare+step"]
